@@ -420,7 +420,11 @@ func (s *Stream) rawWriteLocked(kind drpcwire.Kind, data []byte) (err error) {
 		if err := s.wr.WriteFrame(fr); err != nil {
 			return s.checkCancelError(errs.Wrap(err))
 		} else if fr.Done {
-			return nil
+			// the last frame may have gone to the transport right here (it did
+			// not fit the writer's buffer). if the stream was canceled while it
+			// was in there, this send was in progress when that happened, and
+			// it reports so, exactly as when its bytes go out with the flush.
+			return s.checkCancelError(nil)
 		}
 		drpcdebug.Point("stream.write.betweenFrames", s.ctx.tr)
 	}
